@@ -1094,4 +1094,68 @@ example : wfInput exInput := by decide +kernel
 example : wfN [[], [("a", 1)], [("b", 1)], [("c", -1)], [("a", 1), ("b", 1/2)], [("a", 1), ("b", 1)],
     [("a", 1/2), ("b", 1/2), ("c", -1/2)], [("a", 1), ("b", 1), ("c", -1)]] := by decide +kernel
 
+
+/-! ## 9. one axis: the master order -/
+
+theorem mem_axisPoints_one (a : String) (ls : List Q) (x : Q) (hx : x ∈ ls) (h0 : x ≠ 0) :
+    (a, x) ∈ axisPointsOf (ls.map (loc1 a)) := by
+  unfold axisPointsOf
+  rw [List.mem_filterMap]
+  refine ⟨loc1 a x, List.mem_map.mpr ⟨x, hx, rfl⟩, ?_⟩
+  simp [loc1, h0]
+
+theorem sortKeyN_one_zero (a : String) (ap : List (String × Q)) : sortKeyN ap [] (loc1 a 0) = (0, 0, [], [], [], []) := by
+  simp [sortKeyN, loc1, orderedAxes, keysOf, sortStr]
+
+theorem sortKeyN_one (a : String) (ap : List (String × Q)) (x : Q) (h0 : x ≠ 0) (hm : (a, x) ∈ ap) :
+    sortKeyN ap [] (loc1 a x) = (1, -1, [0x10000], [a], [sgn x], [absQ x]) := by
+  have hon : onPoint ap (a, x) = true := by
+    unfold onPoint
+    simp only [Bool.and_eq_true, List.any_eq_true, Bool.or_eq_true]
+    exact ⟨⟨(a, x), hm, by simp⟩, Or.inr ⟨(a, x), hm, by simp⟩⟩
+  simp [sortKeyN, loc1, h0, orderedAxes, keysOf, sortStr, hon, coord, alookup]
+
+theorem sgn_nonzero (x : Q) (h0 : x ≠ 0) : sgn x = if x < 0 then -1 else 1 := by
+  unfold sgn
+  by_cases h : x < 0
+  · simp [h]
+  · have : 0 < x := by grind
+    simp [h, this]
+
+theorem keyLe_one (a : String) (ls : List Q) (x y : Q) (hx : x ∈ ls) (hy : y ∈ ls) :
+    keyLe1 x y = keyLeN (axisPointsOf (ls.map (loc1 a))) [] (loc1 a x) (loc1 a y) := by
+  unfold keyLeN
+  by_cases hx0 : x = 0
+  · subst hx0
+    rw [sortKeyN_one_zero]
+    by_cases hy0 : y = 0
+    · subst hy0
+      rw [sortKeyN_one_zero]
+      decide +kernel
+    · rw [sortKeyN_one a _ y hy0 (mem_axisPoints_one a ls y hy hy0)]
+      have h01 : compare (0 : Nat) 1 = Ordering.lt := by decide
+      simp [keyLe1, sortKey1, hy0, cmpKeyN, h01]
+  · rw [sortKeyN_one a _ x hx0 (mem_axisPoints_one a ls x hx hx0)]
+    by_cases hy0 : y = 0
+    · subst hy0
+      rw [sortKeyN_one_zero]
+      have h10 : compare (1 : Nat) 0 = Ordering.gt := by decide
+      simp [keyLe1, sortKey1, hx0, cmpKeyN, h10]
+    · rw [sortKeyN_one a _ y hy0 (mem_axisPoints_one a ls y hy hy0)]
+      have hcs : compare a a = Ordering.eq := Std.ReflCmp.compare_self
+      simp only [keyLe1, sortKey1, hx0, hy0, beq_iff_eq, if_false, cmpKeyN, sgn_nonzero, ne_eq, not_false_eq_true,
+        List.compareLex_cons_cons, List.compareLex_nil_nil, hcs, Ordering.then_eq, Nat.compare_eq_eq.mpr rfl,
+        Int.compare_eq_eq.mpr rfl, Ordering.eq_then]
+      have hlt : compare (-1 : Int) 1 = Ordering.lt := by decide
+      have hgt : compare (1 : Int) (-1) = Ordering.gt := by decide
+      have heq : decide (absQ x ≤ absQ y) = (cmpQ (absQ x) (absQ y)).isLE := by
+        rw [Bool.eq_iff_iff, decide_eq_true_eq, cmpQ_isLE]
+      by_cases hxn : x < 0 <;> by_cases hyn : y < 0 <;> simp [hxn, hyn, hlt, hgt, heq]
+
+/-- `getMasterLocationsSortKeyFunc` on one axis is `sort1` -/
+theorem sortN_one (a : String) (ls : List Q) : sortN [] (ls.map (loc1 a)) = (sort1 ls).map (loc1 a) := by
+  unfold sortN sort1
+  exact (List.map_mergeSort (fun x hx y hy => keyLe_one a ls x y hx hy)).symm
+
+
 end Ufo2ft.C10
